@@ -9,6 +9,7 @@ import (
 	"encoding/gob"
 	"errors"
 	"io"
+	"math"
 	"runtime"
 	"sort"
 	"sync"
@@ -364,7 +365,12 @@ func (c *ShardedMapOf[V]) Restore(r io.Reader) (int, error) {
 
 func (c *shardedMapOf[V]) evictMostExpired(evictFraction float64) int {
 	return c.evictLeast(evictFraction, func(i *TraitEntryOf[V]) int64 {
-		return atomic.LoadInt64(&i.E)
+		e := atomic.LoadInt64(&i.E)
+		if e == 0 {
+			return math.MaxInt64 // Entries without expiration are the last to evict.
+		}
+
+		return e
 	})
 }
 
